@@ -187,10 +187,16 @@ FaultTags(op) ==
       [] op = "inject" -> {"C19", "C07", "C13", "C14"}
       [] OTHER -> {"C13", "C14"}
 
+\* observers of the concurrent runs: a store into write-protected library data, a ThreadSanitizer report
 TFault ==
     /\ ~skip
     /\ Ev.e = "Fault"
-    /\ OnVerdict(Verdict(<< Cond("call-crashed-or-hung", FaultTags(Ev.op), FALSE) >>), FALSE)
+    /\ OnVerdict(Verdict(IF Ev.what = "global-write"
+                         THEN << Cond("library-static-data-written-while-threads-run", {"C20", "C13"}, FALSE) >>
+                         ELSE IF Ev.what = "race"
+                         THEN << Cond("data-race-reported", {"C20"}, FALSE) >>
+                         ELSE << Cond("call-crashed-or-hung", FaultTags(Ev.op) \cup (IF Ev.op = "threads" THEN {"C20"} ELSE {}), FALSE) >>),
+                 FALSE)
 
 TBegin ==
     /\ ~skip
